@@ -9,6 +9,8 @@ the wrong type; EVENTs and INVOCATIONs interleave.  Reference model: id -> (kind
 
 from worlds.wamp import SERIALIZERS, SessionWorld, StubTransport, session_classes
 
+from sim.core import SetupViolation
+
 PROP = "C04"
 MAX_STEPS = 90
 MODES = ["clean", "clean", "cut"]
@@ -68,14 +70,12 @@ class World(SessionWorld):
         self.call(self.session.onOpen, self.t)
         self.settle()
         if not self.t.sent or not isinstance(self.t.sent[0], message.Hello):
-            from sim.core import HarnessError
-            raise HarnessError("no HELLO sent: %r" % self.t.sent)
+            raise SetupViolation("no-HELLO-sent-on-open", repr(self.t.sent)[:200])
         roles = {"broker": role.RoleBrokerFeatures(), "dealer": role.RoleDealerFeatures(progressive_call_results=True, call_canceling=True)}
         err = self.deliver(message.Welcome(77001, roles, realm="realm1", authid="anon", authrole="user", authmethod="anonymous"))
         self.settle()
         if err is not None or self.session._session_id != 77001:
-            from sim.core import HarnessError
-            raise HarnessError("session did not join: %r" % (err,))
+            raise SetupViolation("session-did-not-join-on-WELCOME", repr(err)[:200])
         self.sent_base = len(self.t.sent)
         self.prev_id = 0
         if self.cfg["near_wrap"]:
@@ -111,10 +111,18 @@ class World(SessionWorld):
     def injected_send_failure(self, msg):
         if self.fail_this_send == "armed":
             self.fail_this_send = None
-            from autobahn.wamp.exception import SerializationError
-            self.run.fault("transport-send-fails")
-            return SerializationError("injected: cannot serialize %s" % type(msg).__name__)
+            from autobahn.exception import Disconnected, PayloadExceededError
+            from autobahn.wamp.exception import SerializationError, TransportLost
+            kind = self.run.ch.pick(("serialization", "payload-exceeded", "disconnected", "transport-lost"), "send-failure-kind")
+            self.run.fault("transport-send-fails:" + kind)
+            self.failed_ids.append(getattr(msg, "request", None))
+            return {"serialization": SerializationError("injected: cannot serialize %s" % type(msg).__name__),
+                    "payload-exceeded": PayloadExceededError("injected: %s exceeds the transport limit" % type(msg).__name__),
+                    "disconnected": Disconnected("injected: attempt to send on a closing protocol"),
+                    "transport-lost": TransportLost("injected: transport gone")}[kind]
         return None
+
+    failed_ids = ()
 
     def on_sent(self, msg):
         if self.reply_inside_send:
@@ -247,6 +255,7 @@ class World(SessionWorld):
         self.reply_inside_send = kind != "cancel" and ch.flag("reply-to-earlier-request-inside-send", 0.12)
         send_fails = kind in ("call", "publish", "subscribe", "register") and ch.flag("transport-send-fails", 0.07)
         if send_fails:
+            self.failed_ids = list(self.failed_ids)
             self.reply_inside_send = False
             self.fail_this_send = "with-nested-request" if ch.flag("request-issued-while-send-fails", 0.6) else "plain"
             self.t.send_fail = self.injected_send_failure
@@ -365,8 +374,7 @@ class World(SessionWorld):
                 exp_marshal = [49, victim.id, {}]
                 r.kind = "cancel"
         except Exception as e:  # noqa
-            from autobahn.wamp.exception import SerializationError
-            if send_fails and isinstance(e, SerializationError) and "injected" in str(e):
+            if send_fails and "injected" in str(e):
                 # the documented outcome of a failing send(): the exception reaches the caller, the id is spent,
                 # nothing stays pending for it
                 self.run.probe("api-raised-injected-send-failure")
@@ -549,7 +557,7 @@ class World(SessionWorld):
         M = self.M
         self.ops_left -= 1
         kind = ch.pick(("duplicate", "unknown-id", "wrong-type", "wrong-error-type", "published-for-noack", "event-unknown-sub",
-                        "pre-session-msg"), "adv")
+                        "pre-session-msg", "reply-for-failed-send"), "adv")
         msg = None
         pend = [r for r in self.order if r.id is not None and not r.answered and r.kind != "cancel"]
         if kind == "duplicate" and self.replies_sent:
@@ -560,6 +568,13 @@ class World(SessionWorld):
             rid = (self.prev_id + 1000 + ch.choose(5, "off")) % MAXID + 1
             msg = ch.pick((M.Result(rid, args=[1]), M.Published(rid, 1), M.Subscribed(rid, 2), M.Registered(rid, 3),
                            M.Unsubscribed(rid), M.Unregistered(rid), M.Error(48, rid, "wamp.error.x")), "unk")
+        elif kind == "reply-for-failed-send":
+            # the request never left (its send() raised): nothing is pending under that id
+            ids = [i for i in self.failed_ids if i is not None and i not in self.reqs]
+            if ids:
+                rid = ch.pick(ids, "failed-id")
+                msg = ch.pick((M.Result(rid, args=[1]), M.Error(48, rid, "wamp.error.x"), M.Published(rid, 1), M.Subscribed(rid, 2),
+                               M.Registered(rid, 3)), "failed-reply")
         elif kind == "wrong-type" and pend:
             r = ch.pick(pend, "victim")
             cands = {"call": (M.Registered(r.id, 1), M.Published(r.id, 1), M.Subscribed(r.id, 9)),
